@@ -71,7 +71,7 @@ NUL_OPS = ["asc", "+h", "+h", "set", "+s", "+c", "sc", "sf", "ic", "pc", "ac", "
 QRY = ["at", "ioh", "ios", "ioc", "lih", "lis1", "lis", "cnh", "cns", "sws", "ews", "swh", "ewh", "swsi", "ewsi", "cmp", "cmpi",
        "eqi", "iosi", "lisi", "iohi", "lihi", "pns", "swn", "fl", "eqh", "eqhi", "swhi", "ewhi", "dist", "ncmp", "ncmpi"]
 PRO = ["cp", "cpp", "sub", "suba", "subu", "wis", "wps", "was", "wih", "wph", "wah", "pad", "lo", "up", "mx", "tr", "wrc", "wrs",
-       "args", "argi", "wsf", "wpf", "wosf", "wopf", "wosh", "woph", "wons", "pls", "wsfh", "wpfh", "wosfi", "wopfi", "woshi", "wophi", "wiw", "waw", "wpw", "ind", "esc", "argl", "argu", "argul", "argh", "argc", "argb"]
+       "args", "argi", "wsf", "wpf", "wosf", "wopf", "wosh", "woph", "wons", "pls", "wsfh", "wpfh", "wosfi", "wopfi", "woshi", "wophi", "wiw", "waw", "wpw", "ind", "esc", "argl", "argu", "argul", "argh", "argc", "argb", "plh", "hpl", "cpl", "mns", "mnh"]
 
 
 def gen_op(rng, name, ln, alias=0.2):
@@ -145,6 +145,10 @@ def gen_op(rng, name, ln, alias=0.2):
     if name == "wrs":  return "wrs:%s:%s:%d:%d" % (A(needle(rng)), A(rbytes(rng, rng.choice([0, 1, 2, 3, 6]))), cnt(rng), rng.choice([0, 0, 0, 1, ln // 2, ln])), ln
     if name == "args": return "args:%s" % A(rbytes(rng, rng.choice([0, 1, 3, 8, 16]))), ln
     if name == "argi": return "argi:%d" % rng.choice([0, 1, -1, 42, -2147483648, 2147483647, 1000000]), ln
+    if name in ("plh", "hpl"): return "%s:%d" % (name, rng.choice([0x61, 0x42, 0x20, 0x2e, 0xc3])), ln
+    if name == "cpl":  return "cpl:%s" % rbytes(rng, grow), ln
+    if name == "mns":  return "mns:%s" % A(needle(rng)), ln
+    if name == "mnh":  return "mnh:%d" % ch(rng), ln
     if name == "argl": return "argl:%d" % rng.choice([0, -1, 4611686018427387903, -4611686018427387903, 4294967296, 1234567890123]), ln
     if name == "argu": return "argu:%d" % rng.choice([0, 1, 4294967295, 2147483648, 77]), ln
     if name == "argul": return "argul:%d" % rng.choice([0, 4294967296, 4611686018427387903, 77]), ln
@@ -256,6 +260,9 @@ def directed_boundary():
                 out.append(("boundary", "c17|%s;pc:%s:%d;ic:%d:%s:%d;tt:%d;sh:0;pa:%d;pa:%d;cf;+h:65" % (s, x, NOLIM, L // 2, x, NOLIM, 15 - d, 14 + d, 30 + d)))
                 out.append(("boundary", "c17|%s;=wah:46:%d;=wph:46:%d;=pad:%d:1:32;=sub:%d:%d;=tr;sh:0;=lo" % (s, d, d, 14 + d, d, 15 + d)))
                 out.append(("boundary", "c17|%s;sw:%d:%s;sw:0:;uf:%s00;uf:%s;fl" % (s, d * 8, x, lit, lit)))
+    for L in (0, 1, 14, 15, 16, 17):
+        lit = "6162636465666768696a6b6c6d6e6f707172"[: 2 * L]
+        out.append(("boundary", "c17|asc:%s;plh:33;=plh:33;hpl:33;=hpl:34;cpl:78;cpl:;=cpl:7879;mns:@;mns:62;mnh:97;=mns:63;=mnh:100;fl" % lit))
     # words: separators already present / absent on either side, insertion at the ends and in the middle
     for L in (0, 1, 5, 14, 15, 16, 20):
         lit = "6162206364206566206768206970206a6b206c"[: 2 * L]
